@@ -296,6 +296,15 @@ func allVersions(cfg *world.Config) ([]*version, error) {
 			digits[i] = x % (nv + 1)
 			x /= nv + 1
 		}
+		present := 0
+		for _, d := range digits {
+			if d > 0 {
+				present++
+			}
+		}
+		if present < cfg.MinEntries {
+			return
+		}
 		for s := 0; s < nk; s++ {
 			kk := (s + idx) % nk
 			if digits[kk] > 0 {
@@ -327,6 +336,15 @@ func allVersions(cfg *world.Config) ([]*version, error) {
 	})
 	if e := firstErr.Load(); e != nil {
 		return nil, e.(error)
+	}
+	if cfg.MinEntries > 0 {
+		var kept []*version
+		for _, v := range vs {
+			if v != nil {
+				kept = append(kept, v)
+			}
+		}
+		vs = kept
 	}
 	return vs, nil
 }
@@ -751,6 +769,8 @@ func versionConfigs(thorough bool) []*world.Config {
 		world.UintCfg(3, ulist(1, 2, 3, 4, 6, 9, 18), 1, M, "none"),
 		world.LKeyCfg(2, []uint8{0, 2, 0, 1, 3, 0}, 1, B, "none"),
 		world.LKeyCfg(2, []uint8{2, 0, 0, 0, 0, 2}, 1, B, "none"),
+		// height 3 with chains of two stacked pass-through nodes (only layer-0 keys under a layer-3 key)
+		minEntries(world.LKeyCfg(2, []uint8{0, 0, 0, 0, 3, 0, 0, 0, 1, 3}, 1, B, "none"), 7, thorough),
 	}
 	if thorough {
 		cs = append(cs, world.UintCfg(2, urange(0, 10), 1, B, "none"), world.UintCfg(2, urange(1, 6), 2, M, "none"), world.UintCfg(4, ulist(1, 2, 3, 4, 5, 8, 16, 17, 32), 1, B, "none"))
@@ -759,6 +779,15 @@ func versionConfigs(thorough bool) []*world.Config {
 		}
 	}
 	return cs
+}
+
+// minEntries restricts a large universe to its bigger versions in the quick tier.
+func minEntries(c *world.Config, n int, thorough bool) *world.Config {
+	if !thorough {
+		c.MinEntries = n
+		c.Name += fmt.Sprintf("/versions>=%d-entries", n)
+	}
+	return c
 }
 
 func runVersionPairs(run *report.Run, check string, cfgs []*world.Config, judge func(cfg *world.Config, o, n *version) []explore.Finding) {
